@@ -1,4 +1,5 @@
 import AC.Drv.Proto
+import AC.Drv.C13
 import AC.SearchX
 /-! driver handler for C14:
 `c14 <expr hex> <n> <A> <D> <exit> <script hex> <eval last|err> <eval doubles> <eval adds> <reported cost>
@@ -21,7 +22,7 @@ private def bit (b : Bool) : String := if b then "1" else "0"
 
 def handleC14 (f : List String) : Res :=
   match f with
-  | [_es, ns, As, Ds, exit, _script, evalF, evalD, evalA, rep, recomputed, minOK, firstOK,
+  | [es, ns, As, Ds, exit, _script, evalF, evalD, evalA, rep, recomputed, minOK, firstOK,
      fmtE, fmtbE, genE, identP, identR, pairsS, bestS, kind, psS] =>
     match pPairs pairsS, pNats psS with
     | some pairs, some ps =>
@@ -45,6 +46,15 @@ def handleC14 (f : List String) : Res :=
       -- spec side
       let r := specIf "search-exit-0" (exit == "0") r
       let r := specIf "eval-ends-in-n" (evalF == ns) r
+      -- the target itself, evaluated independently of calc.go (conventional recursive descent over
+      -- the property's grammar): the harness' `n` comes from the implementation's own calculator
+      let r := match pHexChars es with
+        | some cs => match AC.Drv.C13.classify cs with
+          | AC.Drv.C13.Cls.wf n0 toks => match AC.Drv.C13.evalE n0 toks with
+            | AC.Drv.C13.EV.val v => specIf "chain-ends-in-value-of-expression" (evalF == toString v) r
+            | _ => r
+          | _ => r
+        | none => r
       let r := specIf "cost-is-weighted-count" (rep == recomputed && rep != "-") r
       let r := specIf "cost-is-minimum" (minOK == "1") r
       let r := specIf "fmt-accepts" (fmtE == "0") r
